@@ -117,6 +117,24 @@ fn run(cfg: &RunCfg) -> Report {
             pci_done += 1;
         }
     }
+    // every PCI id again with bodies of 1..=3 bytes of regular content (an id that happens to look
+    // like another header, followed by a body that completes the look-alike)
+    for id in 0..=0xFFFFu32 {
+        if id as u64 % ns == sh {
+            for len in 1..=3usize {
+                for fill in [0x00u8, 0xFF] {
+                    let mut c = Call::new(Form::VendorDefined, rng.byte() & 0x7F, rng.byte() & 0x7F);
+                    c.p[0] = 0;
+                    c.data32 = id;
+                    c.blob = vec![fill; len];
+                    if len > 1 {
+                        c.blob[0] = rng.byte();
+                    }
+                    check(&c, &mut rep);
+                }
+            }
+        }
+    }
     rep.class_n("pci-id-sweep", pci_done);
     // IANA numbers
     let iana = |v: u32, rep: &mut Report, rng: &mut crate::rng::Rng| {
